@@ -54,6 +54,9 @@ def run_case(case):
 		elif kind == 'dist':
 			argv = ['dist', '--no-progress', '-o', out]
 			specs = []
+			if case.get('qfiles'):
+				gd = os.path.join(_db(), 'queries', 'genomes')
+				argv += ['-q', os.path.join(gd, sorted(os.listdir(gd))[0])]
 			if case.get('qs'):
 				_mksigs(os.path.join(tmp, 'q.gs'), *case['qs'], 2, 2)
 				argv += ['--qs', os.path.join(tmp, 'q.gs')]
@@ -89,17 +92,17 @@ def run_case(case):
 def bounded(tier, seed):
 	specs = [(6, 'AT'), (6, 'at'), (7, 'AT'), (6, 'AC'), (9, 'ATG'), (5, 'AT')]
 	cases = [{'kind': 'query_sigfile', 'k': k, 'prefix': p} for k, p in specs]
+	# the complete decision table over 4 parameter sets: query signatures x (reference signatures | database | square) x explicit options
 	for a in specs[:4]:
-		for b in specs[:4]:
-			cases.append({'kind': 'dist', 'qs': a, 'rs': b})
-		cases.append({'kind': 'dist', 'qs': a, 'use_db': True})
-		cases.append({'kind': 'dist', 'qs': a, 'square': True})
-		for kp in specs[:3]:
+		for kp in [None] + specs[:3] + [specs[3]]:
+			for b in specs[:4]:
+				cases.append({'kind': 'dist', 'qs': a, 'rs': b, 'kp': kp})
+			cases.append({'kind': 'dist', 'qs': a, 'use_db': True, 'kp': kp})
 			cases.append({'kind': 'dist', 'qs': a, 'square': True, 'kp': kp})
-			cases.append({'kind': 'dist', 'qs': a, 'rs': specs[0], 'kp': kp})
-	if tier == 'quick':
-		rnd = random.Random(seed)
-		cases = cases[:6] + rnd.sample(cases[6:], 18)
+	# genome files on the query side (their signatures are computed with the options / the reference's parameters)
+	for b in specs[:4]:
+		for kp in [None] + specs[:4]:
+			cases.append({'kind': 'dist', 'qfiles': True, 'rs': b, 'kp': kp})
 	n, failures, sample = 0, [], []
 	for c in cases:
 		r = run_case(c)
